@@ -4,8 +4,10 @@ Copies patch.diff, demo.cpp, README.md from /tmp/wt_<Cxx>/_seed/<v>/ to /verif/s
 import sys, os, json, shutil, re
 V = os.path.dirname(os.path.dirname(os.path.abspath(__file__)))
 pid, v, res, tests, demo = sys.argv[1:6]
-src = '/tmp/wt_%s/_seed/%s' % (pid, v)
-dst = os.path.join(V, 'seeded', '%s-%s' % (pid, v))
+prefix = sys.argv[6] if len(sys.argv) > 6 else '/tmp/wt_'
+name = sys.argv[7] if len(sys.argv) > 7 else '%s-%s' % (pid, v)
+src = '%s%s/_seed/%s' % (prefix, pid, v)
+dst = os.path.join(V, 'seeded', name)
 os.makedirs(dst, exist_ok=True)
 for f in ('patch.diff', 'demo.cpp', 'README.md'):
     shutil.copy(os.path.join(src, f), os.path.join(dst, f))
@@ -13,7 +15,7 @@ readme = open(os.path.join(src, 'README.md')).read()
 title = readme.strip().splitlines()[0].lstrip('# ').strip()
 m = re.search(r'(?is)##\s*What it needs[^\n]*\n(.*?)(\n##|\Z)', readme)
 needs = ' '.join(m.group(1).split())[:700] if m else ''
-meta = dict(id='%s-%s' % (pid, v), breaks_property=pid, origin='independent sub-agent given only the property text and a scratch worktree',
+meta = dict(id=name, breaks_property=pid, origin='independent sub-agent given only the property text and a scratch worktree',
             title=title, needs_to_manifest=needs,
             confirmed=dict(unit_tests_with_change=tests, demo=demo, how='tools/seedcheck.py <dir> --verify --demo (scratch worktree of /repo HEAD, patch applied, tests/unittest built and run, demo.cpp compiled against patched and unpatched headers)'),
             checks_quick=json.loads(res))
